@@ -319,6 +319,11 @@ func build(tier string) []*explore.Scenario {
 		{"prepender2", [][]string{{"[]byte", "*bytes.Buffer"}, {"[][]byte", "*bytes.Reader"}}, [][]int{{10, 1024}, {1025, 10}}},
 		{"varint", [][]string{{"[]byte", "Reader"}, {"*bytes.Buffer"}}, [][]int{{10, 2500}, {1025}}},
 		{"varint+json", [][]string{{"json-object", "json-object"}, {"json-object"}}, [][]int{{10, 600}, {1025}}},
+		// both writers use the same carrier type and size class (whatever scratch memory a codec uses
+		// for one message is wanted by the other one at the same time)
+		{"prepender2", [][]string{{"[][]byte"}, {"[][]byte", "[][]byte"}}, [][]int{{10}, {12, 10}}},
+		{"varint", [][]string{{"[][]byte"}, {"[][]byte", "string"}}, [][]int{{10}, {12, 10}}},
+		{"prepender2", [][]string{{"*bytes.Buffer"}, {"*bytes.Buffer", "*strings.Reader"}}, [][]int{{10}, {12, 10}}},
 	}
 	if tier == "thorough" {
 		plans = append(plans,
